@@ -9,6 +9,12 @@ NOTE = ("Trusted: Coq 8.16.1 kernel + vm_compute (no native_compute); no axioms 
         "generator coverage bounds the tie. ")
 
 CHECKS = {
+ "C07": dict(
+   cat="proof",
+   text="Theorems (Props/C07.v, closed): for the model of rsec16 (Cauchy and PAR2-Vandermonde parity matrices, GenerateParity, ReconstructData with the lowest-numbered available parity rows, augmented-matrix row reduction from C11) and ANY well-formed parity matrix, any data, any erasure masks: the result is the original data, or not-enough-parity, or singular - never a panic and never success with different data; not-enough-parity exactly when available parity < missing data; nothing missing => Ok without touching parity; both constructors yield well-formed matrices within the documented limits. "
+        "Not proved: that every Cauchy minor is non-singular (MDS) - covered by the differential check (all erasure subsets of all small codes, random large ones); for Vandermonde, singular minors are constructed from the multiplicative orders of the constants and must yield an error in both model and code. Tied to the code on every run; supplied shards re-read after each call.",
+   technique="Rocq proof: reconstruction soundness from the unique-solution theorem of Gauss-Jordan (C11) + matrix associativity; exhaustive small-code differential correspondence check",
+   design="6/C07", note=NOTE + "Go applies the matrix through the bulk kernels (C09) on bytes, in parallel chunks (C12); the model applies fmul word-wise."),
  "C08": dict(
    cat="proof",
    text="Theorems (Props/C08.v, closed under the global context): the log/exp-table implementation model of gf2p16/t.go (T_Times, T_Inverse, T_Div, T_Pow, init without panic) equals reduced carry-less arithmetic modulo 0x1100B for ALL operands (all 2^32 pairs, all exponents < 2^32), plus the field laws. "
